@@ -18,6 +18,17 @@ CHECKS = {
         design_ref="DESIGN.md §2 C01, §3 F1",
         note="Trusted: BLS/SHA-256; lite controller stands in for FSM block validation; committee identical at every root height; NEW_COMMITTEE resets follow the root-height visibility within 3 virtual ms, in order.",
     ),
+    "C02": dict(
+        engine="E-NODE",
+        category="fault_enumeration",
+        technique="runtime monitor: store.Version() and result of the real controller.HandlePeerBlock for every deviation of an honest (block, certificate) pair, judged against an independent kyber-level reference validator",
+        text="A full node built from canopy's constructors commits 3 honestly certified blocks, then is offered ~50 classes of deviated certificates for its next height "
+             "(signer subsets at threshold-1 / threshold, padded and resized bitmaps, foreign and grafted signatures, every header field changed without re-signing / re-signed "
+             "by a minority / by everybody, block and results binding, wrong-phase and previous-height certificates, old-committee bitmaps). No invalid one may advance the store; "
+             "a valid variant must still commit afterwards.",
+        design_ref="DESIGN.md §2 C02",
+        note="Trusted: BLS (kyber bdn), SHA-256. Reference validator judges binding + signature + power, not block execution. Fast-sync path only at checkpoint heights (exempt by the property).",
+    ),
     "C17": dict(
         engine="E-P2P",
         category="fault_enumeration",
